@@ -14,7 +14,7 @@ use sip_types::header::typed::{RSeq, Require, Supported};
 use sip_types::{Code, Method};
 use std::sync::Arc;
 use tokio::sync::{mpsc, oneshot, Mutex};
-use tokio::time::timeout;
+use tokio::time::{timeout, Instant};
 
 #[derive(Debug, thiserror::Error)]
 pub enum Error {
@@ -201,26 +201,28 @@ impl Acceptor {
 
             tsx.respond_provisional(&mut response).await?;
 
-            let mut prack = None;
+            // The response is retransmitted with an interval that starts at T1 and doubles,
+            // for 64*T1 (RFC 3262 3)
+            let abandon = Instant::now() + T1 * 64;
             let mut delta = T1;
 
-            for _ in 1..6 {
-                match timeout(delta, &mut prack_recv).await {
-                    Ok(res) => {
-                        // Unwrap is safe as no other function sets `awaiting_prack`
-                        // which means the channel will not be dropped
-                        prack = Some(res.unwrap());
-                        break;
-                    }
+            loop {
+                let wait = delta.min(abandon.saturating_duration_since(Instant::now()));
+
+                match timeout(wait, &mut prack_recv).await {
+                    Ok(Ok(prack)) => return Ok(prack),
+                    Ok(Err(_)) => return Err(Error::RequestTerminated),
                     Err(_) => {
+                        if Instant::now() >= abandon {
+                            return Err(Error::RequestTerminated);
+                        }
+
                         // retransmit on timeout
                         tsx.respond_provisional(&mut response).await?;
-                        delta = T1 * 2;
+                        delta *= 2;
                     }
                 }
             }
-
-            prack.ok_or(Error::RequestTerminated)
         } else {
             Err(Error::RequestTerminated)
         }
